@@ -66,6 +66,8 @@ func BuildUniverse(root string, apps int, small bool, shards int) *Universe {
 		add("SC", decl(ty, "SC", Struct(F("A", Basic("int")), F("B", Basic("string")), F("C", Basic("bool")))))
 		add("SD", decl(ty, "SD", Struct(F("A", Basic("string")), F("B", Basic("string")))))
 		add("SU", decl(ty, "SU", Struct(F("A", Basic("int")), F("b", Basic("string")))))
+		add("SX", decl(ty, "SX", Struct(F("FOO", Basic("int")), F("Foo", Basic("int")))))
+		add("SY", decl(ty, "SY", Struct(F("FoO", Basic("int")))))
 		add("any", RawType(KIface, "any"))
 		add("Str", decl(ty, "Str", RawType(KIface, "interface{ String() string }")))
 		add("func", RawType(KFunc, "func()"))
